@@ -3,6 +3,7 @@ pub mod c03;
 pub mod c05;
 pub mod c10;
 pub mod c13;
+pub mod rpc;
 pub mod conn;
 pub mod smoke;
 pub mod tables;
@@ -44,6 +45,7 @@ pub fn dispatch(args: &[String]) -> i32 {
         "apstress" => apstress::main(&a),
         "c10" => c10::main(&a),
         "c13" => c13::main(&a),
+        "rpc" => rpc::main(&a),
         "table-tiebreak" => tables::tiebreak(&a),
         "replay-inflight" => tower::replay_inflight(&a),
         "replay-auth" => tower::replay_auth(&a),
